@@ -16,7 +16,7 @@ EXHAUSTIVE = True
 
 
 def plan(env, tier, seed):
-    n = 10 if tier == "quick" else 300
+    n = 40 if tier == "quick" else 3000
     tasks = cl.split_tasks(env, lambda ty, e: e["kind"] in ("noref", "single"))
     for t in tasks:
         t.update({"n": n, "seed": seed})
